@@ -131,6 +131,8 @@ func c09r1(c *Ctx, r *Report) {
 func runC09(c *Ctx, r *Report) {
 	l := c.L
 	c09r1(c, r)
+	defer c15r7(c, r) // a reload restarts the indices: the selection of the old list must not carry over
+	defer c09r7(c, r)
 
 	// ---------------- R2 ----------------
 	r.rule("C09-R2", "E (exhaustiveness)", "P1",
